@@ -1,4 +1,5 @@
 import TensorModel.Proofs.Serial
+import TensorModel.Proofs.CopyCoord
 import TensorModel.Props.C05
 import TensorModel.Props.C17compat
 /-!
@@ -88,61 +89,216 @@ theorem sameTensor_of_decoded {st st' : St} {t d : Dense} {ap : AP} {cells : Lis
   exact ⟨hsh', hd.dt, hst', hd.mask, ⟨cells, hr, hd.fresh⟩,
     at_eq_of_raw hsh' hst' (get_fresh_raw hr hd.fresh)⟩
 
+/-- `decode (encode t)` has the logical content of `t`: same shape and element type, no mask, and at every
+    coordinate of the shape the same element (coordinates outside the shape are refused by both: C01) -/
+def SameContent (st : St) (t : Dense) (st' : St) (d : Dense) : Prop :=
+  d.ap.shape = t.ap.shape ∧ d.dt = t.dt ∧ d.mask = none ∧ ∀ c ∈ allCoords t.ap.shape, d.at_ st' c = t.at_ st c
+
+theorem SameTensor.content {st st' : St} {t d : Dense} (h : SameTensor st t st' d) : SameContent st t st' d :=
+  ⟨h.1, h.2.1, h.2.2.2.1, fun c _ => h.2.2.2.2.2 c⟩
+
+/-! ### what gob, protobuf and flatbuffers write -/
+
+/-- a tensor an encoder can be handed: one stride per axis, positive dimensions, a non-empty storage window
+    inside an existing buffer that holds the address of every coordinate; and — the library's flag
+    discipline — a tensor whose window is not exactly as long as the tensor is large (a view with gaps)
+    is marked as needing its iterator -/
+structure WFsrc (st : St) (t : Dense) : Prop where
+  slen : t.ap.strides.length = t.ap.shape.length
+  pos : ∀ d ∈ t.ap.shape, 0 < d
+  len0 : 0 < t.win.len
+  cap : t.win.len ≤ t.win.cap
+  buf : t.win.buf < st.heap.size
+  inr : ∀ c ∈ allCoords t.ap.shape, 0 ≤ dot c t.ap.strides ∧ dot c t.ap.strides < (t.win.len : Int)
+  has : Has st t.win.buf t.win.off t.win.len
+  flagged : (t.win.len : Int) ≠ totalSize t.ap.shape → t.requiresIterator = true
+
+/-- **`packed()` of a tensor whose window is longer than its size is a coordinate-wise copy into fresh
+    row-major storage**: same shape and element type, default strides, a new buffer of exactly `size` cells
+    that holds at the row-major rank of every coordinate the source's element at that coordinate. Any rank,
+    any strides. -/
+theorem packed_by_coordinate (st : St) (t : Dense) (wf : WFsrc st t) (hnm : t.mask = none)
+    (hw : (t.win.len : Int) ≠ totalSize t.ap.shape) :
+    ∃ st1 r, packed st t = .ok (st1, r) ∧
+      r.ap = { shape := t.ap.shape, strides := calcStrides t.ap.shape, fin := true, o := {} } ∧
+      r.dt = t.dt ∧ r.mask = none ∧
+      r.win = ⟨st.heap.size, 0, (prod t.ap.shape).toNat, (prod t.ap.shape).toNat⟩ ∧
+      (∀ c ∈ allCoords t.ap.shape,
+        TM.cell st1 st.heap.size (rowRank t.ap.shape c).toNat =
+          some (TM.cellD st t.win.buf (t.win.off + (dot c t.ap.strides).toNat))) := by
+  have hit := wf.flagged hw
+  have hl := wf.slen
+  have hp := wf.pos
+  have hbuf := wf.buf
+  have hmask : t.isMasked = false := by
+    unfold Dense.isMasked; rw [hnm]; simpa using Nat.ne_of_gt wf.len0
+  have hneq : ((t.win.len : Int) == totalSize t.shape) = false := by simpa [Dense.shape] using hw
+  unfold packed
+  simp only [hneq, Bool.false_eq_true, if_false]
+  cases hfr : Dense.fresh st t.dt t.shape false (Array.replicate (totalSize t.shape).toNat Val.zero) t.eng with
+  | mk st1 r0 =>
+  simp only
+  simp only [Dense.fresh, St.alloc, Prod.mk.injEq] at hfr
+  obtain ⟨hst1, hr0⟩ := hfr
+  have hst1' : st1 = { st with heap := st.heap.push (Array.replicate (totalSize t.shape).toNat Val.zero) } := hst1.symm
+  have hap0 : r0.ap = { shape := t.ap.shape, strides := calcStrides t.ap.shape, fin := true, o := {} } := by
+    rw [← hr0]; simp [Dense.shape, Dense.defaultStrides]
+  have hsh0 : r0.ap.shape = t.ap.shape := by rw [hap0]
+  have hstr0 : r0.ap.strides = calcStrides t.ap.shape := by rw [hap0]
+  have hwin0 : r0.win = ⟨st.heap.size, 0, (prod t.ap.shape).toNat, (prod t.ap.shape).toNat⟩ := by
+    rw [← hr0]; simp [Dense.shape, totalSize]
+  have hmask0 : r0.mask = none := by rw [← hr0]
+  have hdt0 : r0.dt = t.dt := by rw [← hr0]
+  unfold Dense.copyDenseIter
+  simp only [hit, Bool.not_true, Bool.and_false, Bool.false_and, Bool.false_eq_true, if_false, bind, Except.bind]
+  have hdot : ∀ c, dot c r0.ap.strides = rowRank t.ap.shape c := by intro c; rw [hstr0]; rfl
+  obtain ⟨s2, h2, _, hv, _⟩ := copyIterOffsets_by_coordinate st1 r0 t t.ap.shape hsh0 rfl
+    (by rw [hstr0, calcStrides_length]) hl hp (by rw [hwin0]; exact Nat.ne_of_gt hbuf)
+    (by rw [hwin0]; exact Nat.le_refl _) wf.cap
+    (by
+      intro c hc
+      rw [hdot, hwin0]
+      have hb := rowRank_bounds' t.ap.shape c (C17compat.allCoords_inBox _ _ hc)
+      have hpp : 0 ≤ prod t.ap.shape := by omega
+      simp only
+      omega)
+    wf.inr
+    (by
+      have : (fun c => dot c r0.ap.strides) = rowRank t.ap.shape := by funext c; exact hdot c
+      rw [this, C17compat.allCoords_map_rowRank _ hp]
+      exact rangeI_pairwise _)
+    (by
+      rw [hwin0, hst1']
+      intro i hi
+      simp only [Nat.zero_add]
+      rw [cell_push_new]
+      have hi' : i < (prod t.ap.shape).toNat := hi
+      simp [Dense.shape, totalSize, hi'])
+    (by rw [hst1']; exact wf.has.push hbuf _)
+  rw [h2]
+  simp only [Dense.copyMaskIter, hmask, Bool.not_false, if_true, pure, Except.pure]
+  refine ⟨s2, r0, rfl, hap0, hdt0, hmask0, hwin0, ?_⟩
+  intro c hc
+  have := hv c hc
+  rw [hdot, hwin0] at this
+  simp only [Nat.zero_add] at this
+  refine this.trans ?_
+  rw [hst1']
+  congr 1
+  unfold cellD
+  rw [cell_push_lt _ _ _ _ hbuf]
+
+/-- reading a window cell that exists -/
+theorem get_of_cell {s : St} {w : Win} {i : Int} {v : Val} (h0 : 0 ≤ i) (h1 : i < (w.len : Int))
+    (hc : TM.cell s w.buf (w.off + i.toNat) = some v) : s.get w i = .ok v := by
+  unfold St.get
+  have : (i < 0 || i ≥ (w.len : Int)) = false := by simp; omega
+  rw [this]
+  simp only [Bool.false_eq_true, if_false]
+  unfold TM.cell at hc
+  cases hb : s.heap[w.buf]? with
+  | none => simp [hb] at hc
+  | some b =>
+    simp only [hb, Option.bind_some] at hc
+    simp only [hc]
+
+/-- a reader that takes over the shape and the default strides of the packed copy `r` of `t` and a fresh copy
+    of `r`'s window returns the content of `t` -/
+theorem sameContent_of_packed {st st1 st' : St} {t r d : Dense} {cells : List Val} {ap : AP}
+    (wf : WFsrc st t)
+    (hwin : r.win = ⟨st.heap.size, 0, (prod t.ap.shape).toNat, (prod t.ap.shape).toNat⟩)
+    (hcell : ∀ c ∈ allCoords t.ap.shape,
+      TM.cell st1 st.heap.size (rowRank t.ap.shape c).toNat =
+        some (TM.cellD st t.win.buf (t.win.off + (dot c t.ap.strides).toNat)))
+    (hr : r.rawCells st1 = .ok cells) (hd : Decoded st st' d ap t.dt cells)
+    (hsh : ap.shape = t.ap.shape) (hst : ap.strides = calcStrides t.ap.shape) : SameContent st t st' d := by
+  have hsh' : d.ap.shape = t.ap.shape := by rw [hd.ap, hsh]
+  have hst' : d.ap.strides = calcStrides t.ap.shape := by rw [hd.ap, hst]
+  refine ⟨hsh', hd.dt, hd.mask, ?_⟩
+  intro c hc
+  have hbox := C17compat.allCoords_inBox _ _ hc
+  have hb := rowRank_bounds' t.ap.shape c hbox
+  -- the decoded side
+  have hd1 : d.at_ st' c = st'.get d.win (rowRank t.ap.shape c) := by
+    rw [at_inBox st' d c (by simp only [Dense.strides, Dense.shape]; rw [hst', hsh', calcStrides_length])
+      (by simp only [Dense.shape]; rw [hsh']; exact hbox)]
+    simp only [Dense.strides]; rw [hst']; rfl
+  have hd2 : st'.get d.win (rowRank t.ap.shape c) = st1.get r.win (rowRank t.ap.shape c) :=
+    get_fresh_raw hr hd.fresh _
+  have hd3 : st1.get r.win (rowRank t.ap.shape c) =
+      .ok (TM.cellD st t.win.buf (t.win.off + (dot c t.ap.strides).toNat)) := by
+    apply get_of_cell hb.1
+    · rw [hwin]; simp only; omega
+    · rw [hwin]; simp only [Nat.zero_add]; exact hcell c hc
+  -- the source side
+  have hs1 : t.at_ st c = st.get t.win (dot c t.ap.strides) :=
+    at_inBox st t c wf.slen hbox
+  have hr' := wf.inr c hc
+  have hs2 : st.get t.win (dot c t.ap.strides) =
+      .ok (TM.cellD st t.win.buf (t.win.off + (dot c t.ap.strides).toNat)) :=
+    get_of_cell hr'.1 hr'.2 (cell_some_cellD (wf.has.at hr'.1 hr'.2))
+  rw [hd1, hd2, hd3, hs1, hs2]
+
 /-! ### gob -/
 
-/-- gob, any memory layout, unmasked, every rank (rank 0 included): if the storage window is exactly as
-    long as the tensor is large, the bytes read back as the same tensor (shape, strides, order flags
-    and window are carried over, so transposed and column-major tensors are fine). Partial: outside
-    `Excl_gobWindow` (F71); masks are not covered here. -/
-theorem gob_roundtrip_partial (st : St) (t : Dense) (rec : Rec) (hm : t.mask = none)
-    (hx1 : Excl_gobWindow t = false) (h : gobEnc st t = .ok rec) :
+/-- gob, any stride vector and data order over a window that is exactly as long as the tensor is large
+    (transposed, column-major, contiguous views), unmasked, every rank: shape, strides, order flags and the
+    window are carried over, the very same tensor comes back. -/
+theorem gob_roundtrip_window (st : St) (t : Dense) (rec : Rec) (hm : t.mask = none)
+    (hw : (t.win.len : Int) = totalSize t.ap.shape) (h : gobEnc st t = .ok rec) :
     ∃ st' d, gobDec st rec = .ok (st', d) ∧ SameTensor st t st' d := by
-  have hw : (t.win.len : Int) = totalSize t.ap.shape ∨ isScalar t.ap.shape = true := by
-    simp only [Excl_gobWindow] at hx1
-    cases hs : isScalar t.ap.shape with
-    | true => exact Or.inr rfl
-    | false => exact Or.inl (by simpa [hs] using hx1)
-  obtain ⟨cells, hr, hok, _⟩ := gob_dec_enc st t rec hm h
-  obtain ⟨st', d, hd, hdec⟩ := hok hw
+  obtain ⟨cells, hr, hok, _⟩ := gob_dec_enc st st t t rec (packed_same st t hw) hm h
+  obtain ⟨st', d, hd, hdec⟩ := hok (Or.inl hw)
   exact ⟨st', d, hd, sameTensor_of_decoded hr hdec rfl rfl⟩
 
 /-- gob of a contiguous row-major non-view tensor of any rank. -/
 theorem gob_roundtrip (st : St) (t : Dense) (rec : Rec) (hp : Plain t)
-    (h : gobEnc st t = .ok rec) : ∃ st' d, gobDec st rec = .ok (st', d) ∧ SameTensor st t st' d := by
-  refine gob_roundtrip_partial st t rec hp.mask ?_ h
-  simp [Excl_gobWindow, hp.len]
+    (h : gobEnc st t = .ok rec) : ∃ st' d, gobDec st rec = .ok (st', d) ∧ SameTensor st t st' d :=
+  gob_roundtrip_window st t rec hp.mask hp.len h
 
-/-- gob carries the mask: a masked tensor whose window is its size (or of rank 0) reads back with the
-    same shape, strides and order flags over a fresh copy of the window, and with a fresh copy of the
-    whole mask (masks are index-aligned with the window, so the mask of every coordinate is preserved). -/
+/-- gob carries the mask: a masked tensor whose window is its size reads back with the same shape, strides
+    and order flags over a fresh copy of the window, and with a fresh copy of the whole mask (masks are
+    index-aligned with the window, so the mask of every coordinate is preserved). -/
 theorem gob_roundtrip_masked (st : St) (t : Dense) (rec : Rec) (m : Win) (hm : t.mask = some m)
-    (hml : m.len = t.win.len) (hpos : 0 < t.win.len) (hx1 : Excl_gobWindow t = false)
+    (hml : m.len = t.win.len) (hpos : 0 < t.win.len) (hw : (t.win.len : Int) = totalSize t.ap.shape)
     (h : gobEnc st t = .ok rec) :
     ∃ cells mc st' d, t.rawCells st = .ok cells ∧ maskCells st t = .ok mc ∧ gobDec st rec = .ok (st', d) ∧
       d.ap.shape = t.ap.shape ∧ d.ap.strides = t.ap.strides ∧ d.ap.o = t.ap.o ∧ d.dt = t.dt ∧
       FreshOf st st' d cells ∧
       d.mask = some ⟨st.mheap.size, 0, mc.length, mc.length⟩ ∧ st'.mheap = st.mheap.push mc.toArray := by
-  have hw : (t.win.len : Int) = totalSize t.ap.shape ∨ isScalar t.ap.shape = true := by
-    simp only [Excl_gobWindow] at hx1
-    cases hs : isScalar t.ap.shape with
-    | true => exact Or.inr rfl
-    | false => exact Or.inl (by simpa [hs] using hx1)
   obtain ⟨cells, mc, st', d, hr, hmk, hd, hap, hdt, hf, hmask, hmh⟩ :=
     gob_dec_enc_masked st t rec m hm hml hpos hw h
   exact ⟨cells, mc, st', d, hr, hmk, hd, by rw [hap], by rw [hap], by rw [hap], hdt, hf, hmask, hmh⟩
 
-/-- F71 for every view: whenever the window is not as long as the tensor is large, the encoder
-    succeeds and the reader's `sanity()` refuses the bytes. -/
-theorem gob_window_unreadable (st : St) (t : Dense) (rec : Rec) (hm : t.mask = none)
-    (hs : isScalar t.ap.shape = false) (hw : (t.win.len : Int) ≠ totalSize t.ap.shape)
-    (h : gobEnc st t = .ok rec) : ∃ tag, gobDec st rec = .error (.err tag) := by
-  obtain ⟨_, _, _, herr⟩ := gob_dec_enc st t rec hm h
-  exact herr ⟨hw, hs⟩
+/-- The reader's own check: a record whose backing slice is not as long as its shape is large (and whose
+    shape is not of rank 0) is refused by `sanity()` — what used to happen to the bytes `GobEncode` wrote for
+    a view with gaps. -/
+theorem gob_decoder_checks_window (st : St) (shape strides : List Int) (o : Order) (dt : String) (cells : List Val)
+    (hs : isScalar shape = false) (hw : (cells.length : Int) ≠ totalSize shape) :
+    ∃ tag, gobDec st { shape := shape, strides := strides, o := o, dt := dt, data := cells } = .error (.err tag) := by
+  have hsan : ¬ sanityOk shape cells.length = true := by
+    rw [sanityOk_iff]
+    intro h'
+    rcases h' with h' | h'
+    · exact hw h'
+    · rw [hs] at h'; cases h'
+  rw [gobDec_data, if_neg hsan]
+  exact ⟨_, rfl⟩
 
-/-- The unrestricted statement: every unmasked tensor gob writes reads back as the same tensor. -/
-def gob_roundtrip_full : Prop :=
-  ∀ (st : St) (t : Dense) (rec : Rec), t.mask = none → gobEnc st t = .ok rec →
-    ∃ st' d, gobDec st rec = .ok (st', d) ∧ SameTensor st t st' d
+/-- **gob, every unmasked tensor** (any rank, any strides, views with gaps — column slices, stepped slices —
+    included): the bytes `GobEncode` writes read back as a tensor of the same shape and element type with
+    the same element at every coordinate. -/
+theorem gob_roundtrip_full (st : St) (t : Dense) (rec : Rec) (hm : t.mask = none) (wf : WFsrc st t)
+    (h : gobEnc st t = .ok rec) : ∃ st' d, gobDec st rec = .ok (st', d) ∧ SameContent st t st' d := by
+  by_cases hw : (t.win.len : Int) = totalSize t.ap.shape
+  · obtain ⟨st', d, hd, hs⟩ := gob_roundtrip_window st t rec hm hw h
+    exact ⟨st', d, hd, hs.content⟩
+  · obtain ⟨st1, r, hp, hap, hdt, hmask, hwin, hcell⟩ := packed_by_coordinate st t wf hm hw
+    obtain ⟨cells, hr, hok, _⟩ := gob_dec_enc st st1 t r rec hp hmask h
+    have h0 : 0 ≤ prod t.ap.shape := Int.le_of_lt (prod_pos _ wf.pos)
+    obtain ⟨st', d, hd, hdec⟩ := hok (Or.inl (by rw [hwin, hap]; simp only [totalSize]; omega))
+    rw [hdt] at hdec
+    exact ⟨st', d, hd, sameContent_of_packed wf hwin hcell hr hdec (by rw [hap]) (by rw [hap])⟩
 
 /-! witnesses: a 3×3 buffer, a (2,3) matrix over its first six cells, its lazy transpose, the column
     slice `[:, 1:3]` of the 3×3 matrix, a column vector, a rank-0 tensor -/
@@ -157,32 +313,39 @@ def view32 : Dense :=
 def col31 : Dense := { ap := { shape := [3, 1], strides := [1, 1], fin := true }, win := ⟨0, 0, 3, 9⟩, dt := "f64" }
 def cell0 : Dense := { ap := { shape := [], strides := [], fin := true }, win := ⟨0, 0, 1, 9⟩, dt := "f64" }
 
-/-- It fails (F71): the column slice `[:, 1:3]` of a 3×3 matrix. -/
-theorem gob_roundtrip_full_fails : ¬ gob_roundtrip_full := by
-  intro hfull
-  obtain ⟨rec, hrec⟩ : ∃ rec, gobEnc buf9 view32 = .ok rec := ⟨_, rfl⟩
-  obtain ⟨st', d, hd, _⟩ := hfull buf9 view32 rec rfl hrec
-  obtain ⟨tag, herr⟩ := gob_window_unreadable buf9 view32 rec rfl rfl (by decide) hrec
-  rw [herr] at hd
-  cases hd
+/-- the column slice `[:, 1:3]` of a 3×3 matrix, whose bytes the reader used to refuse: what is written is
+    the (3,2) row-major tensor over the six cells of the view … -/
+example : (gobEnc buf9 view32).toOption.map (fun r => (r.shape, r.strides, r.data)) =
+    some ([3, 2], [2, 1], [.src 0 1, .src 0 2, .src 0 4, .src 0 5, .src 0 7, .src 0 8]) := rfl
 
-/-- … while a rank-0 tensor reads back as itself. -/
+/-- … and it is read back. -/
+theorem gob_roundtrip_view : ∃ rec st' d, gobEnc buf9 view32 = .ok rec ∧ gobDec buf9 rec = .ok (st', d) ∧
+    d.ap.shape = [3, 2] ∧ d.ap.strides = [2, 1] ∧
+    FreshOf buf9 st' d [.src 0 1, .src 0 2, .src 0 4, .src 0 5, .src 0 7, .src 0 8] :=
+  ⟨_, _, _, rfl, rfl, rfl, rfl, rfl, rfl⟩
+
+/-- a rank-0 tensor reads back as itself. -/
 theorem gob_roundtrip_scalar : ∃ rec st' d, gobEnc buf9 cell0 = .ok rec ∧ gobDec buf9 rec = .ok (st', d) ∧
     SameTensor buf9 cell0 st' d := by
   obtain ⟨rec, hrec⟩ : ∃ rec, gobEnc buf9 cell0 = .ok rec := ⟨_, rfl⟩
-  obtain ⟨st', d, hd, hs⟩ := gob_roundtrip_partial buf9 cell0 rec rfl (by decide) hrec
+  obtain ⟨st', d, hd, hs⟩ := gob_roundtrip_window buf9 cell0 rec rfl (by decide) hrec
   exact ⟨rec, st', d, hrec, hd, hs⟩
 
 /-! ### protobuf and flatbuffers -/
 
-/-- protobuf, any layout: outside `Excl_rawWindow` (F77) the bytes read back as the same tensor. -/
-theorem pb_roundtrip_partial (st : St) (t : Dense) (rec : Rec) (hx : Excl_rawWindow t = false)
+/-- protobuf, any stride vector and data order over a window exactly as long as the tensor is large: the very
+    same tensor comes back. -/
+theorem pb_roundtrip_window (st : St) (t : Dense) (rec : Rec) (hw : (t.win.len : Int) = totalSize t.ap.shape)
     (hm : t.mask = none) (h : rawEnc st t = .ok rec) :
     ∃ st' d, pbDec st rec = .ok (st', d) ∧ SameTensor st t st' d := by
   have _ := hm
-  have hw : (t.win.len : Int) = totalSize t.ap.shape := by simpa [Excl_rawWindow] using hx
   have h0 : 0 ≤ totalSize t.ap.shape := by omega
-  obtain ⟨cells, st', d, hr, hd, hdec⟩ := pb_dec_enc st t rec h h0
+  obtain ⟨st1, r, cells, hp, hr, hok⟩ := pb_dec_enc st t rec h
+  rw [packed_same st t hw] at hp
+  injection hp with hp
+  injection hp with h1 h2
+  subst h1 h2
+  obtain ⟨st', d, hd, hdec⟩ := hok h0
   have hlen := rawCells_length st t cells hr
   have : (totalSize t.ap.shape).toNat = cells.length := by omega
   rw [this, rawFill_exact] at hdec
@@ -190,17 +353,20 @@ theorem pb_roundtrip_partial (st : St) (t : Dense) (rec : Rec) (hx : Excl_rawWin
 
 theorem pb_roundtrip (st : St) (t : Dense) (rec : Rec) (hp : Plain t) (h : rawEnc st t = .ok rec) :
     ∃ st' d, pbDec st rec = .ok (st', d) ∧ SameTensor st t st' d :=
-  pb_roundtrip_partial st t rec (by simp [Excl_rawWindow, hp.len]) hp.mask h
+  pb_roundtrip_window st t rec hp.len hp.mask h
 
-/-- flatbuffers, any layout (tensors carrying fewer strides than dimensions included): outside
-    `Excl_rawWindow` (F77) the bytes read back as the same tensor. -/
-theorem fb_roundtrip_partial (st : St) (t : Dense) (rec : Rec) (hx : Excl_rawWindow t = false)
+/-- flatbuffers, as protobuf (tensors carrying fewer strides than dimensions included). -/
+theorem fb_roundtrip_window (st : St) (t : Dense) (rec : Rec) (hw : (t.win.len : Int) = totalSize t.ap.shape)
     (hm : t.mask = none) (h : rawEnc st t = .ok rec) :
     ∃ st' d, fbDec st rec = .ok (st', d) ∧ SameTensor st t st' d := by
   have _ := hm
-  have hw : (t.win.len : Int) = totalSize t.ap.shape := by simpa [Excl_rawWindow] using hx
   have h0 : 0 ≤ totalSize t.ap.shape := by omega
-  obtain ⟨cells, st', d, hr, hd, hdec⟩ := fb_dec_enc st t rec h h0
+  obtain ⟨st1, r, cells, hp, hr, hok⟩ := fb_dec_enc st t rec h
+  rw [packed_same st t hw] at hp
+  injection hp with hp
+  injection hp with h1 h2
+  subst h1 h2
+  obtain ⟨st', d, hd, hdec⟩ := hok h0
   have hlen := rawCells_length st t cells hr
   have : (totalSize t.ap.shape).toNat = cells.length := by omega
   rw [this, rawFill_exact] at hdec
@@ -208,53 +374,58 @@ theorem fb_roundtrip_partial (st : St) (t : Dense) (rec : Rec) (hx : Excl_rawWin
 
 theorem fb_roundtrip (st : St) (t : Dense) (rec : Rec) (hp : Plain t) (h : rawEnc st t = .ok rec) :
     ∃ st' d, fbDec st rec = .ok (st', d) ∧ SameTensor st t st' d :=
-  fb_roundtrip_partial st t rec (by simp [Excl_rawWindow, hp.len]) hp.mask h
+  fb_roundtrip_window st t rec hp.len hp.mask h
 
-def pb_roundtrip_full : Prop :=
-  ∀ (st : St) (t : Dense) (rec : Rec), t.mask = none → 0 ≤ totalSize t.ap.shape → rawEnc st t = .ok rec →
-    ∃ st' d, pbDec st rec = .ok (st', d) ∧ SameTensor st t st' d
+/-- **protobuf, every unmasked tensor** (views with gaps included): the bytes `PBEncode` writes read back as a
+    tensor of the same shape and element type with the same element at every coordinate. -/
+theorem pb_roundtrip_full (st : St) (t : Dense) (rec : Rec) (hm : t.mask = none) (wf : WFsrc st t)
+    (h : rawEnc st t = .ok rec) : ∃ st' d, pbDec st rec = .ok (st', d) ∧ SameContent st t st' d := by
+  by_cases hw : (t.win.len : Int) = totalSize t.ap.shape
+  · obtain ⟨st', d, hd, hs⟩ := pb_roundtrip_window st t rec hw hm h
+    exact ⟨st', d, hd, hs.content⟩
+  · obtain ⟨st1, r, hp, hap, hdt, _, hwin, hcell⟩ := packed_by_coordinate st t wf hm hw
+    obtain ⟨st1', r', cells, hp', hr, hok⟩ := pb_dec_enc st t rec h
+    rw [hp] at hp'
+    injection hp' with hp'
+    injection hp' with h1 h2
+    subst h1 h2
+    have h0 : 0 ≤ prod t.ap.shape := Int.le_of_lt (prod_pos _ wf.pos)
+    obtain ⟨st', d, hd, hdec⟩ := hok (by rw [hap]; exact h0)
+    have hlen := rawCells_length st1 r cells hr
+    have : (totalSize r.ap.shape).toNat = cells.length := by rw [hlen, hwin, hap]; rfl
+    rw [this, rawFill_exact, hdt] at hdec
+    exact ⟨st', d, hd, sameContent_of_packed wf hwin hcell hr hdec (by rw [hap]) (by rw [hap])⟩
 
-def fb_roundtrip_full : Prop :=
-  ∀ (st : St) (t : Dense) (rec : Rec), t.mask = none → 0 ≤ totalSize t.ap.shape → rawEnc st t = .ok rec →
-    ∃ st' d, fbDec st rec = .ok (st', d) ∧ SameTensor st t st' d
+/-- **flatbuffers, every unmasked tensor** (views with gaps included). -/
+theorem fb_roundtrip_full (st : St) (t : Dense) (rec : Rec) (hm : t.mask = none) (wf : WFsrc st t)
+    (h : rawEnc st t = .ok rec) : ∃ st' d, fbDec st rec = .ok (st', d) ∧ SameContent st t st' d := by
+  by_cases hw : (t.win.len : Int) = totalSize t.ap.shape
+  · obtain ⟨st', d, hd, hs⟩ := fb_roundtrip_window st t rec hw hm h
+    exact ⟨st', d, hd, hs.content⟩
+  · obtain ⟨st1, r, hp, hap, hdt, _, hwin, hcell⟩ := packed_by_coordinate st t wf hm hw
+    obtain ⟨st1', r', cells, hp', hr, hok⟩ := fb_dec_enc st t rec h
+    rw [hp] at hp'
+    injection hp' with hp'
+    injection hp' with h1 h2
+    subst h1 h2
+    have h0 : 0 ≤ prod t.ap.shape := Int.le_of_lt (prod_pos _ wf.pos)
+    obtain ⟨st', d, hd, hdec⟩ := hok (by rw [hap]; exact h0)
+    have hlen := rawCells_length st1 r cells hr
+    have : (totalSize r.ap.shape).toNat = cells.length := by rw [hlen, hwin, hap]; rfl
+    rw [this, rawFill_exact, hdt] at hdec
+    exact ⟨st', d, hd, sameContent_of_packed wf hwin hcell hr hdec (by rw [hap]) (by rw [hap])⟩
 
-/-- It fails (F77): the reader succeeds on the column slice `[:, 1:3]`, but with a buffer of 6 cells
-    where the view's window has 8 — the decoded tensor is not the source tensor. -/
-theorem pb_roundtrip_full_fails : ¬ pb_roundtrip_full := by
-  intro hfull
-  obtain ⟨rec, hrec⟩ : ∃ rec, rawEnc buf9 view32 = .ok rec := ⟨_, rfl⟩
-  obtain ⟨st', d, hd, _, _, _, _, ⟨cells, hr, hf⟩, _⟩ := hfull buf9 view32 rec rfl (by decide) hrec
-  obtain ⟨cells', st'', d', hr', hd', hdec'⟩ := pb_dec_enc buf9 view32 rec hrec (by decide)
-  rw [hd] at hd'
-  injection hd' with hd'
-  injection hd' with h1 h2
-  subst h1 h2
-  rw [hr] at hr'
-  injection hr' with hr'
-  subst hr'
-  have heq := FreshOf_unique hf hdec'.fresh
-  have hl := rawCells_length buf9 view32 cells hr
-  have hl2 := congrArg List.length heq
-  rw [rawFill_length, hl] at hl2
-  exact absurd hl2 (by decide)
+/-- the column slice `[:, 1:3]` of a 3×3 matrix, which used to come back with other cells under the view's
+    strides: both readers now return the (3,2) row-major tensor over the six cells of the view. -/
+theorem pb_roundtrip_view : ∃ rec st' d, rawEnc buf9 view32 = .ok rec ∧ pbDec buf9 rec = .ok (st', d) ∧
+    d.ap.shape = [3, 2] ∧ d.ap.strides = [2, 1] ∧
+    FreshOf buf9 st' d [.src 0 1, .src 0 2, .src 0 4, .src 0 5, .src 0 7, .src 0 8] :=
+  ⟨_, _, _, rfl, rfl, rfl, rfl, rfl, rfl⟩
 
-theorem fb_roundtrip_full_fails : ¬ fb_roundtrip_full := by
-  intro hfull
-  obtain ⟨rec, hrec⟩ : ∃ rec, rawEnc buf9 view32 = .ok rec := ⟨_, rfl⟩
-  obtain ⟨st', d, hd, _, _, _, _, ⟨cells, hr, hf⟩, _⟩ := hfull buf9 view32 rec rfl (by decide) hrec
-  obtain ⟨cells', st'', d', hr', hd', hdec'⟩ := fb_dec_enc buf9 view32 rec hrec (by decide)
-  rw [hd] at hd'
-  injection hd' with hd'
-  injection hd' with h1 h2
-  subst h1 h2
-  rw [hr] at hr'
-  injection hr' with hr'
-  subst hr'
-  have heq := FreshOf_unique hf hdec'.fresh
-  have hl := rawCells_length buf9 view32 cells hr
-  have hl2 := congrArg List.length heq
-  rw [rawFill_length, hl] at hl2
-  exact absurd hl2 (by decide)
+theorem fb_roundtrip_view : ∃ rec st' d, rawEnc buf9 view32 = .ok rec ∧ fbDec buf9 rec = .ok (st', d) ∧
+    d.ap.shape = [3, 2] ∧ d.ap.strides = [2, 1] ∧
+    FreshOf buf9 st' d [.src 0 1, .src 0 2, .src 0 4, .src 0 5, .src 0 7, .src 0 8] :=
+  ⟨_, _, _, rfl, rfl, rfl, rfl, rfl, rfl⟩
 
 /-! ### npy -/
 
@@ -373,6 +544,44 @@ theorem csv_writer_rows_bounded :
       csvRowsIdx r c = some ((List.range r).map (fun i => (List.range c).map (fun j => i * c + j))) := by
   decide
 
+/-! masked matrices: `WriteCSV` writes the fill value in place of a masked element. The position inside the
+    current record is counted by `k`, which restarts with every record (it used to run on, so that a masked
+    element in any row but the first indexed past the end of the record and the call panicked). -/
+
+/-- the canonical `(r,c)` matrix with the mask `bits` (one bit per cell, row-major) -/
+def maskedMat (r c : Nat) (bits : List Bool) : St × Dense :=
+  ({ heap := #[((List.range (r * c)).map (Val.src 0)).toArray], mheap := #[bits.toArray] },
+   { (plainMat r c).2 with mask := some ⟨0, 0, r * c, r * c⟩ })
+
+/-- a written field as a number: the source offset of an element, `-(offset+1)` for the fill value standing
+    in for it -/
+def fieldCode : Val → Int
+  | .src _ o => o
+  | .app1 _ (.src _ o) => -((o : Int) + 1)
+  | _ => -1000
+
+def csvMaskedRows (r c : Nat) (bits : List Bool) : Option (List (List Int)) :=
+  match csvEnc (maskedMat r c bits).1 (maskedMat r c bits).2 with
+  | .ok rec => some (rec.rows.map (·.map fieldCode))
+  | .error _ => none
+
+/-- all bit vectors of length `n` -/
+def allBits : Nat → List (List Bool)
+  | 0 => [[]]
+  | n + 1 => (allBits n).flatMap (fun b => [false :: b, true :: b])
+
+/-- Bounded, kernel-evaluated: for **every** mask of a (2,2), a (3,2) and a (2,3) matrix the writer succeeds
+    and every record holds, field by field, the element or — where the mask bit is set — its fill value. -/
+theorem csv_masked_rows_bounded :
+    ∀ rc ∈ [(2, 2), (3, 2), (2, 3)], ∀ bits ∈ allBits (rc.1 * rc.2),
+      csvMaskedRows rc.1 rc.2 bits =
+        some ((List.range rc.1).map (fun i => (List.range rc.2).map (fun j =>
+          if bits.getD (i * rc.2 + j) false then -((i * rc.2 + j : Nat) + 1 : Int) else ((i * rc.2 + j : Nat) : Int)))) := by
+  decide
+
+/-- the recorded witness: a (2,2) matrix whose element (1,0) is masked -/
+example : csvMaskedRows 2 2 [false, false, true, false] = some [[0, 1], [-3, 3]] := by decide
+
 /-- The unrestricted statement (writer's half included). Not proved for all shapes: see
     `csv_roundtrip_partial` and `csv_writer_rows_bounded`. -/
 def csv_roundtrip_full : Prop :=
@@ -392,8 +601,15 @@ theorem csv_reads_every_type : ∀ dt ∈ ["b", "i", "i8", "i16", "i32", "i64", 
 -- non-vacuity: the witnesses are well-formed and the plain round trips apply to `mat23`
 example : Plain mat23 := ⟨rfl, rfl, rfl⟩
 example : C05.WFit mat23T.ap := ⟨rfl, by intro d hd; simp [mat23T] at hd; omega⟩
-example : Excl_gobWindow view32 = true := by decide
-example : Excl_rawWindow view32 = true := by decide
+/-- the view with gaps meets the hypotheses of the `_full` theorems (window of 8 cells for 6 elements) -/
+example : WFsrc buf9 view32 :=
+  { slen := rfl, pos := by intro d hd; simp [view32] at hd; omega, len0 := by decide, cap := by decide,
+    buf := by decide, inr := by decide, has := by
+      intro i hi
+      have h8 : i < 8 := hi
+      have : i = 0 ∨ i = 1 ∨ i = 2 ∨ i = 3 ∨ i = 4 ∨ i = 5 ∨ i = 6 ∨ i = 7 := by omega
+      rcases this with rfl | rfl | rfl | rfl | rfl | rfl | rfl | rfl <;> rfl,
+    flagged := fun _ => rfl }
 example : String.ofList (fmtHdr "f8".toList [2, 3]) =
     "{'descr': '<f8', 'fortran_order': False, 'shape': (2, 3)}             " := by decide
 example : String.ofList (hdrBase "i2".toList [5]) = "{'descr': '<i2', 'fortran_order': False, 'shape': (5,)}" := by decide
